@@ -116,15 +116,15 @@ func checkC13(c *Ctx) {
 	nw := 0
 	c.MustTLC(TLCOpts{Module: "WriterContract", Cfg: "WriterContract.gen", OnBeh: func(raw json.RawMessage) {
 		var b struct {
-			W, P string
+			W, Prior, P string
 		}
 		json.Unmarshal(raw, &b)
 		nw++
 		if nw%17 == 1 {
-			c.Sample(map[string]string{"writer": b.W, "payload": b.P})
+			c.Sample(map[string]string{"writer": b.W, "prior": b.Prior, "payload": b.P})
 		}
-		if f := replayWriter(b.W, b.P, c.Seed); f != nil {
-			c.Violation(f.Key, f.What, map[string]string{"writer": b.W, "payload": b.P})
+		if f := replayWriter(b.W, b.Prior, b.P, c.Seed); f != nil {
+			c.Violation(f.Key, f.What, map[string]string{"writer": b.W, "prior": b.Prior, "payload": b.P})
 		}
 		c.Add("traces_validated_against_impl", 1)
 	}})
@@ -412,7 +412,7 @@ func payloadOf(class string, seed int64) []byte {
 	return nil
 }
 
-func replayWriter(kind, class string, seed int64) (f *Finding) {
+func replayWriter(kind, prior, class string, seed int64) (f *Finding) {
 	p := payloadOf(class, seed)
 	defer func() {
 		if r := recover(); r != nil {
@@ -455,9 +455,15 @@ func replayWriter(kind, class string, seed int64) (f *Finding) {
 	default:
 		return &Finding{Key: "HARNESS/writer-kind", What: kind}
 	}
+	// what the writer accepted before the observed Write
+	for _, pp := range map[string][]string{"nothing": nil, "fragment": {"partial line without its end"}, "fragments": {"first ", "second ", "third"}, "line": {"a complete line\n"}}[prior] {
+		if n, err := w.Write([]byte(pp)); n != len(pp) || err != nil {
+			return &Finding{Key: "C13/writer-count:" + strings.SplitN(kind, "-", 2)[0], What: fmt.Sprintf("%s writer returned (%d, %v) for the %d-byte payload %q", kind, n, err, len(pp), pp)}
+		}
+	}
 	n, err := w.Write(p)
 	if n != len(p) || err != nil {
-		return &Finding{Key: "C13/writer-count:" + strings.SplitN(kind, "-", 2)[0], What: fmt.Sprintf("%s writer returned (%d, %v) for a %d-byte payload of class %s it accepted in full; io.Writer requires (%d, nil)", kind, n, err, len(p), class, len(p))}
+		return &Finding{Key: "C13/writer-count:" + strings.SplitN(kind, "-", 2)[0], What: fmt.Sprintf("%s writer (after %s) returned (%d, %v) for a %d-byte payload of class %s it accepted in full; io.Writer requires (%d, nil)", kind, prior, n, err, len(p), class, len(p))}
 	}
 	return nil
 }
